@@ -230,16 +230,24 @@ def filtered_comprehension(eng, comp_node, comp, seq, elem, st):
         import hashlib
         name = 'filter_' + hashlib.sha1(repr(key).encode()).hexdigest()[:10]
         eng.ctx.fun(name, [sort], sort)
-        ys = smt.bound(eng.ctx, 'ys', sort)
-        last = At(ys, Sub(Len(ys), IntV(1)))
-        cond_last = smt.T(cond.s.replace(x.s, last.s), BOOL, (cond.syms - x.syms) | last.syms, cond.apps)
-        F = lambda a: eng.ctx.app(name, a)
-        ax = [Eq(F(smt.Empty(sort)), smt.Empty(sort)),
-              ForAll([ys], Implies(Gt(Len(ys), IntV(0)),
-                                   Eq(F(ys), Cc(F(Substr(ys, IntV(0), Sub(Len(ys), IntV(1)))),
-                                                Ite(cond_last, smt.Unit(last), smt.Empty(sort))))), patterns=[[F(ys)]])]
-        eng.ctx.fun_axioms[name] = ax
         cache[key] = name
-        eng.trusted_used.add('comprehension filter as the recursive definition %s' % name)
+        eng.trusted_used.add('comprehension filter as the recursive definition %s (unfolded on ground applications only)' % name)
+
+    def register(t):
+        """Unfolding fact for the ground application F(t) (no quantifier over sequences: z3's sequence theory
+        returned `unsat` on the quantified form of this perfectly consistent definition)."""
+        app = eng.ctx.app(name, t)
+        k = app.s
+        if k in eng.ctx.unfold or any(sy.startswith('?') for sy in app.syms):
+            return app
+        last = At(t, Sub(Len(t), IntV(1)))
+        cond_last = smt.T(cond.s.replace(x.s, last.s), BOOL, (cond.syms - x.syms) | last.syms, cond.apps)
+
+        def thunk():
+            inner = register(Substr(t, IntV(0), Sub(Len(t), IntV(1))))
+            return Eq(smt.T(app.s, app.sort, app.syms),
+                      Ite(Eq(Len(t), IntV(0)), smt.Empty(sort), Cc(inner, Ite(cond_last, smt.Unit(last), smt.Empty(sort)))))
+        eng.ctx.unfold[k] = ('rec', thunk)
+        return smt.T(app.s, app.sort, app.syms, app.apps | frozenset([k]))
     eng.last_comp = None
-    return VSeq(eng.ctx.app(name, seq), elem)
+    return VSeq(register(seq), elem)
